@@ -1281,10 +1281,21 @@ class FnKinds:
             return lp
         if step == -1 and cmp_op in (">", ">=", "!=") and plus == 0:
             lo_s = self.size(rhs)
-            hi_s = self.size(start)
-            if lo_s is None or hi_s is None or not lo_s.is_const():
+            if lo_s is None or not lo_s.is_const():
                 return None
             lo = lo_s.c + (1 if cmp_op in (">", "!=") else 0)
+            hi_s = self.size(start)
+            st = strip(start)
+            if hi_s is None and st is not None and st.get("k") == "Cond":
+                # start = c ? A : c0 with a constant c0 below the loop's lower bound: from c0 the body never runs, from A the
+                # variable visits [lo, A]; so [lo, A+1) bounds the variable whatever the condition is (guarded start `n > 0 ? n-1 : 0`)
+                a, b = self.size(st["then"]), self.size(st["else"])
+                for x, y in ((a, b), (b, a)):
+                    if x is not None and y is not None and y.is_const() and y.c < lo:
+                        hi_s = x
+                        break
+            if hi_s is None:
+                return None
             lp = Loop("down", f, var=d, lo=lo, hi=self.norm(hi_s + 1), depth=depth, extra_inc=extra_inc, varname=var["n"],
                       start=self.norm(hi_s), start_expr=start)
             lp.rng = Rng(lo, self.norm(hi_s + 1))
@@ -1984,6 +1995,7 @@ def coverage(fk, key, base_frames=(), after_seq=0, case=None):
         return True, "allocated with an explicit fill value over its extent %r" % ext
     nb = len(base_frames)
     pieces = []     # (lo Lin, hi Lin, text)
+    skipped = []    # writes whose form is not understood (they may or may not cover something)
     cond_writes = {}
     for e in fk.events:
         if e.kind != "sub" or e.mode != "write" or e.arr.key != key or e.seq <= alloc_seq:
@@ -2010,6 +2022,8 @@ def coverage(fk, key, base_frames=(), after_seq=0, case=None):
                     lp = loops[0].loop
                     if lp is not None and lp.kind == "range" and lp.hi is not None and not ifs:
                         pieces.append((Lin.const(lp.lo), fk.norm(lp.hi), "scatter %s[%s[.]] through the index array %s (a permutation by contract)" % (key, v.key, v.key)))
+                        continue
+            skipped.append("%s[%s] (index %r)" % (key, render(e.idx), r))
             continue
         if ifs:
             # both branches of one if must write the same element
@@ -2022,9 +2036,11 @@ def coverage(fk, key, base_frames=(), after_seq=0, case=None):
                 pieces.append((fk.norm(r.exact), fk.norm(r.exact) + 1, "%s[%s]" % (key, render(e.idx))))
             continue
         if len(loops) > 1:
+            skipped.append("%s[%s] in nested loops" % (key, render(e.idx)))
             continue
         lp = loops[0].loop
         if lp is None or lp.kind not in ("range", "down") or getattr(lp, "hi", None) is None:
+            skipped.append("%s[%s] in loop %s" % (key, render(e.idx), loops[0].canon))
             continue
         pieces.append((Lin.const(r.lo), fk.norm(r.hi), "%s[%s] in loop %s" % (key, render(e.idx), lp.canon)))
     cur = Lin.const(0)
@@ -2041,6 +2057,8 @@ def coverage(fk, key, base_frames=(), after_seq=0, case=None):
         cur = best[1]
     if cur == ext:
         return True, "extent %r covered by %s" % (ext, "; ".join(used))
+    if skipped or fk.unknown:
+        return None, "coverage of %s not evaluable: assignments %s are not of a modelled form" % (key, "; ".join(skipped) or "inside unmodelled constructs")
     return False, "extent is [0,%r) but the assignments only cover [0,%r)%s" % (ext, cur, (" (" + "; ".join("%s=[%r,%r)" % (p[2], p[0], p[1]) for p in pieces) + ")") if pieces else " (no covering assignment found)")
 
 
